@@ -102,6 +102,7 @@ func (d *driver) submitSome(li *logInst, k int) {
 
 // restart after a crash or a fatal stop: wait for the old sequencer goroutine, then load a new instance
 func (d *driver) restart(prev *logInst, keepCache bool) *logInst {
+	d.stoppedCheck(prev)
 	d.w.mu.Lock()
 	prev.in.dead = true
 	if prev.cancel != nil {
@@ -727,6 +728,7 @@ func runScenario(d *driver, kind string) {
 
 // kill: the instance dies (as after a crash); its sequencer goroutine is waited for
 func (d *driver) kill(prev *logInst) {
+	d.stoppedCheck(prev)
 	d.w.mu.Lock()
 	if !prev.in.dead {
 		prev.in.dead = true
@@ -1114,4 +1116,28 @@ func (d *driver) rollbackCache(li *logInst) {
 	d.w.logf(nil, "ev|cachedrop|%d|%d", li.in.id, keep)
 	d.w.mu.Unlock()
 	d.stats["cache-rollback"]++
+}
+
+// stoppedCheck (C17): when RunSequencer has returned by itself (fatal error, cancellation, sunset) —
+// the instance was not crashed by the harness — every submitter it ever accepted has an outcome.
+// Called before the harness declares the old instance dead and starts a new one.
+func (d *driver) stoppedCheck(prev *logInst) {
+	d.w.mu.Lock()
+	orderly := prev.log != nil && !prev.running && !prev.in.dead
+	d.w.mu.Unlock()
+	if !orderly {
+		return
+	}
+	d.syncQuiet(30)
+	d.w.mu.Lock()
+	defer d.w.mu.Unlock()
+	for _, x := range d.waiters {
+		if x.inst != prev {
+			continue
+		}
+		d.w.mon.checks["C17.stopped-all-answered"]++
+		if !x.done {
+			d.w.mon.fail("C17 the sequencer of instance %d stopped by itself (%v) but submitter %d was left without an outcome", prev.in.id, prev.seqErr, x.wid)
+		}
+	}
 }
